@@ -51,8 +51,10 @@ func (t scopedTri) PointInSide(p vector3.Float64) bool {
 		return false
 	}
 
+	// All three pairs have to agree: when p lies on the line through two of
+	// the corners one normal vanishes and its two products say nothing.
 	w := a.Cross(b)
-	return u.Dot(w) >= 0.
+	return u.Dot(w) >= 0. && v.Dot(w) >= 0.
 }
 
 func (t scopedTri) ClosestPoint(p vector3.Float64) vector3.Float64 {
@@ -275,8 +277,10 @@ func (t Tri) PointInSide(p vector3.Float64) bool {
 		return false
 	}
 
+	// All three pairs have to agree: when p lies on the line through two of
+	// the corners one normal vanishes and its two products say nothing.
 	w := a.Cross(b)
-	return u.Dot(w) >= 0.
+	return u.Dot(w) >= 0. && v.Dot(w) >= 0.
 }
 
 func (t Tri) LineIntersects(line geometry.Line3D) (vector3.Float64, bool) {
